@@ -54,8 +54,15 @@ def scanOut (v : View) (pat : List Atom) (m0 : MSt) (nsave : Nat) : String :=
     | o => (outStr (fun _ => "") o, [])
   let spec := specMatches v pat m0.start m0.stop
   let hyp := decide (Hyp v pat m0.start m0.stop)
+  -- hypu: the same hypotheses with the section table only required to be well formed AFTER sorting it by
+  -- VirtualAddress (a file whose table is merely not in address order): outside the completeness theorem
+  -- (`C10_scan_complete_needs_SecWF`), inside the property's "any image" — the oracle uses it to recognise
+  -- the documented `next_section` limitation as such
+  let hypu := pat.all Atom.ok && pat.all noRead && decide (v.b.size < 4294967296) &&
+    decide (m0.start < 4294967296) && decide (m0.stop < 4294967296) &&
+    (v.kind != .file || decide (SecWF (v.secs.mergeSort (fun a b => a.va ≤ b.va))))
   let sound := ans.2.all (fun c => m0.start ≤ c && c < m0.stop && execOK v pat c) && ascending ans.2
-  s!"{ans.1} ## spec=[{join ((spec.take specCap).map (fmtSpecHit v pat nsave)) ";"}] specn={spec.length} hyp={b01 hyp} pos=[{join (ans.2.map toString)}] sound={b01 sound}"
+  s!"{ans.1} ## spec=[{join ((spec.take specCap).map (fmtSpecHit v pat nsave)) ";"}] specn={spec.length} hyp={b01 hyp} hypu={b01 hypu} pos=[{join (ans.2.map toString)}] sound={b01 sound}"
 
 /-- the positions `next` can examine at all: inside the range and inside a raw-data slice -/
 def scanPositions (v : View) (lo hi : Nat) : List Nat :=
